@@ -41,6 +41,14 @@ CLAIMED = {
              'interpreters is not decided.',
         note=STATIC_NOTE,
         technique='static analysis: HIR match-arm tables (sibling cross-check) + taint + call-graph reachability per interpreter arm'),
+    'C20': dict(
+        text='Three-way Fiat–Shamir schedule duality by static extraction (same engine as C01): in-circuit verifier gadget = off-circuit verifier specialised to '
+             'one proof / one phase; LightAggregator::aggregate_proofs = dual of ::verify on the outer transcript with length-prefixed sections; ipa_prove = '
+             'dual of ipa_verify; plus must-call rules for the aggregator circuit (finalize, accumulator exposure, per-proof verification) and the '
+             'aggregated verifier. Decides that the three parties read/write/squeeze the same sequence for every configuration; arithmetic equality and IPA '
+             'soundness are not decided.',
+        note=STATIC_NOTE,
+        technique='static analysis: HIR effect-schedule extraction + normal-form comparison; MIR must-call'),
 }
 
 NOT_APPLICABLE = {
